@@ -53,6 +53,21 @@ def _contexts():
             f"{kind}:str": lambda s, mk=mk: str(TagList(mk(s), span())),
             f"{kind}:deep": lambda s, mk=mk: div(div(span(mk(s)), "w")).get_html_string(2),
         })
+    def via_displayhook(s, mk):
+        import sys
+        t = div("lead")
+        saved = sys.displayhook
+        sys.displayhook = lambda v: None
+        try:
+            with t:
+                sys.displayhook(mk(s))
+                sys.displayhook("z")
+        finally:
+            sys.displayhook = saved
+        return g(t)
+    ctx["HTML:with-block"] = lambda s: via_displayhook(s, HTML)
+    ctx["repr:with-block"] = lambda s: via_displayhook(s, Repr)
+    ctx["repr:tagify-result"] = lambda s: Tag("div", "a", __import__("hv.spec", fromlist=["Tagif"]).Tagif(["H", s])).render()["html"]
     ctx.update({
         "script:only": lambda s: g(Tag("script", s)),
         "script:several": lambda s: g(Tag("script", "a<", s, 3)),
